@@ -422,6 +422,42 @@ Fixpoint run_e (fx : fixes) (keep_dur : bool) (maxf : Z) (oracle : nat -> orc) (
   end.
 
 (* ------------------------------------------------------------------ *)
+(* Pre-encoded frames: AddRawFrame                                      *)
+
+(* The record is what is handed to the muxer: offsets, blend, dispose, duration and the
+   bitstream, represented by the picture it was encoded from ([m_img]) and its codec.
+   Muxer.AddFrame refuses it when the muxer is full (state unchanged); otherwise the frame
+   is counted and prevCanvas is forgotten, so that the next AddFrame emits a key frame. *)
+Definition add_raw_e (maxf : Z) (st : est) (r : mrec) : est * bool :=
+  if mux_full maxf st then (set_calls st, false)
+  else
+    (set_calls
+       (mkest (e_W st) (e_H st) (e_opts st)
+              (e_recs st ++ [mkmrec (m_x r) (m_y r) (m_img r) (m_lossy r) (m_blend_none r)
+                                    (m_dispose_bg r) (clamp_dur (m_dur r))])
+              None (e_fcount st + 1) (e_since st) (e_prect st) (e_pidx st) (e_calls st)), true).
+
+Inductive op := OAdd (f : img * Z) | ORaw (r : mrec).
+
+Definition step_op (fx : fixes) (maxf : Z) (oracle : nat -> orc) (fails : nat -> efail)
+    (st : est) (o : op) : est * bool :=
+  match o with
+  | OAdd f => add_frame_e fx true maxf oracle fails st f
+  | ORaw r => add_raw_e maxf st r
+  end.
+
+(* a history of AddFrame / AddRawFrame calls: final state and the accepted calls *)
+Fixpoint run_ops (fx : fixes) (maxf : Z) (oracle : nat -> orc) (fails : nat -> efail)
+    (st : est) (ops : list op) : est * list op :=
+  match ops with
+  | [] => (st, [])
+  | o :: rest =>
+      let '(st1, ok) := step_op fx maxf oracle fails st o in
+      let '(stf, acc) := run_ops fx maxf oracle fails st1 rest in
+      (stf, if ok then o :: acc else acc)
+  end.
+
+(* ------------------------------------------------------------------ *)
 (* Close                                                                *)
 
 Record output := mkout {
@@ -432,30 +468,50 @@ Record output := mkout {
   out_recs : list mrec
 }.
 
+(* Muxer.validate, per frame: offsets storable (non-negative, halved value in 24 bits), a
+   still image has no offset, the frame lies inside the canvas.  (The canvas itself is
+   storable: NewEncoder limits it to 16383 x 16383.) *)
+Definition max_position_off : Z := 16777216.
+
+Definition rec_valid (W H : Z) (animated : bool) (r : mrec) : bool :=
+  (0 <=? m_x r) && (0 <=? m_y r) &&
+  (m_x r / 2 <? max_position_off) && (m_y r / 2 <? max_position_off) &&
+  (animated || ((m_x r =? 0) && (m_y r =? 0))) &&
+  (m_x r + iw (m_img r) <=? W) && (m_y r + ih (m_img r) <=? H).
+
 (* [has_meta]: an ICC / EXIF / XMP blob was set on the encoder (SetICCProfile ...);
    the simple still carries no metadata, so the single-frame optimisation is then
    skipped and the muxer writes an extended file (with one frame of duration 0: a
-   non-animated VP8X file with the metadata chunks).  Metadata never touches a frame.
+   non-animated VP8X file with the metadata chunks and the explicit canvas size).
+   Metadata never touches a frame.
    [simple_smaller]: len(simpleData) > 0 && len(simpleData) < len(animData).
-   None: Muxer.Assemble fails with ErrNoFrames. *)
+   None: Muxer.Assemble fails (ErrNoFrames, or validate refuses a frame).
+   After a pre-encoded frame prevCanvas is nil: no single-frame optimisation.  A single
+   frame of duration 0 without metadata is written by assembleSimple, whose canvas is
+   the frame's own size (the explicit canvas size is not stored). *)
 Definition close (has_meta simple_smaller : bool) (st : est) : option output :=
   match e_recs st with
   | [] => None
   | r0 :: _ =>
       let W := e_W st in let H := e_H st in
-      match e_prev st with
-      | Some prev =>
-          if (e_fcount st =? 1) && negb has_meta && simple_smaller then
-            Some (mkout true true W H 0
-                    [mkmrec 0 0 (mkimg W H prev) (negb (eo_lossless (e_opts st))) false false 0])
-          else if mux_animated (e_recs st) then
+      let animated := mux_animated (e_recs st) in
+      if negb (forallb (rec_valid W H animated) (e_recs st)) then None
+      else
+        let by_muxer :=
+          if animated then
             Some (mkout false false W H (eo_loop (e_opts st)) (e_recs st))
           else
-            (* one frame of duration 0: the muxer itself writes a simple file *)
-            Some (mkout true false W H 0
-                    [mkmrec 0 0 (m_img r0) (m_lossy r0) false false 0])
-      | None => None
-      end
+            Some (mkout true false (if has_meta then W else iw (m_img r0))
+                        (if has_meta then H else ih (m_img r0)) 0
+                        [mkmrec 0 0 (m_img r0) (m_lossy r0) false false 0]) in
+        match e_prev st with
+        | Some prev =>
+            if (e_fcount st =? 1) && negb has_meta && simple_smaller then
+              Some (mkout true true W H 0
+                      [mkmrec 0 0 (mkimg W H prev) (negb (eo_lossless (e_opts st))) false false 0])
+            else by_muxer
+        | None => by_muxer
+        end
   end.
 
 (* ------------------------------------------------------------------ *)
@@ -496,3 +552,36 @@ End Codec.
 
 Definition inputs_of (W H : Z) (fs : list (img * Z)) : list (canvas * Z) :=
   map (fun f => (pad W H (fst f), snd f)) fs.
+
+(* ------------------------------------------------------------------ *)
+(* The show a history of AddFrame / AddRawFrame calls stands for: an AddFrame picture is
+   the whole canvas; a pre-encoded frame is composited by the container rules (dispose
+   of the previous frame's rectangle if it asked for it, then overwrite or blend) at
+   its offset, with the picture it was encoded from. *)
+
+Definition id_frame (r : mrec) : frame :=
+  mkframe (m_x r) (m_y r) (iw (m_img r)) (ih (m_img r)) (ipix (m_img r))
+          (m_blend_none r) (m_dispose_bg r) true.
+
+Definition rstate := (canvas * option (rect * bool))%type.
+
+Definition rstep (W H : Z) (s : rstate) (o : op) : rstate :=
+  match o with
+  | OAdd f => (pad W H (fst f), None)
+  | ORaw r =>
+      let c1 := match snd s with
+                | Some (rc, true) => fill W H (fst s) rc
+                | _ => fst s
+                end in
+      (composite W H c1 (id_frame r), Some (true_rect (id_frame r), m_dispose_bg r))
+  end.
+
+Definition op_dur (o : op) : Z := match o with OAdd f => snd f | ORaw r => m_dur r end.
+
+Fixpoint ref_show (W H : Z) (s : rstate) (ops : list op) : list (canvas * Z) :=
+  match ops with
+  | [] => []
+  | o :: rest => let s' := rstep W H s o in (fst s', op_dur o) :: ref_show W H s' rest
+  end.
+
+Definition rfold (W H : Z) (s : rstate) (ops : list op) : rstate := fold_left (rstep W H) ops s.
